@@ -362,6 +362,42 @@ def replace_pda(rng):
     return {'Q': ['q0', 'q1', 'q2', 'q3', 'q4'], 'Sigma': sigma, 'Gamma': sorted(set([x, y])), 'delta': delta, 'q0': 'q0', 'F': F, 'eps': e}
 
 
+def loop_exit_pda(rng):
+    """a balanced loop at p (push / pop) followed by an exit to another state through a second balanced pair: the grammar of
+    pda_to_cfg needs the splitting rule A_pq -> A_pp A_pq"""
+    e = rng.choice(['_', 'ε'])
+    a, b, c, d = ('a', 'b', 'a', 'b') if rng.random() < 0.5 else ('a', 'b', 'b', 'a')
+    delta = [['p', a, e, 'p1', 'x'], ['p1', b, 'x', 'p', e], ['p', c, e, 'p2', 'y'], ['p2', d, 'y', 'q', e]]
+    rng.shuffle(delta)
+    return {'Q': ['p', 'p1', 'p2', 'q'], 'Sigma': ['a', 'b'], 'Gamma': ['x', 'y'], 'delta': delta, 'q0': 'p', 'F': ['q'], 'eps': e}
+
+
+def drain_pda(rng):
+    """accepts with symbols left on the stack, and the accepting state has epsilon pop moves of its own"""
+    e = rng.choice(['_', 'ε'])
+    delta = [['q0', 'a', e, 'q0', 'x'], ['q0', 'b', 'x', 'q1', e], ['q1', e, 'x', 'q2', e], ['q2', 'a', e, 'q1', 'z']]
+    if rng.random() < 0.5:
+        delta.append(['q1', 'b', 'z', 'q1', e])
+    rng.shuffle(delta)
+    return {'Q': ['q0', 'q1', 'q2'], 'Sigma': ['a', 'b'], 'Gamma': ['x', 'z'], 'delta': delta, 'q0': 'q0', 'F': ['q1'], 'eps': e}
+
+
+def unit_cycle_cfg(rng):
+    """unit rules forming a cycle, each variable of the cycle with an exit of its own (the unit closure must be complete for every order)"""
+    k = rng.randint(2, 3)
+    cyc = ['A', 'B', 'C'][:k]
+    leaves = ['D', 'E', 'F'][:k]
+    rules = [['S', [['T', 'a'], ['V', cyc[-1]]]], ['S', [['T', 'b'], ['V', cyc[0]]]]]
+    for i, v in enumerate(cyc):
+        rules.append([v, [['V', cyc[(i + 1) % k]]]])
+        rules.append([v, [['V', leaves[i]]]])
+    for i, l in enumerate(leaves):
+        rules.append([l, [['T', 'abc'[i]]]])
+    body = rules[2:]
+    rng.shuffle(body)
+    return mk_cfg(rules[:2] + body, 'S')
+
+
 def relabel_re(t, codes):
     """rename the symbols 0..k-1 of a regexp tree to the given codes"""
     if t[0] == 's':
